@@ -181,7 +181,10 @@ def gen_case(rnd, ctx, maxlen):
 
     def single_key():
         # single-key operations also get unhashable keys (TypeError before or after validation)
-        return 300 if rnd.random() < 0.06 else pick_key()
+        if rnd.random() < 0.06:
+            ctx.count("key:unhashable")
+            return 300
+        return pick_key()
 
     def pick_val(k=None):
         r = rnd.random()
